@@ -2,4 +2,4 @@ From Capy Require Import Common.Util Model.Gate Spec.GateSpec.
 Require Extraction.
 Require Import ExtrOcamlBasic.
 Extraction Language OCaml.
-Separate Extraction gate gate_verdict gate_ok is_safe track marked.
+Separate Extraction gate gate_verdict gate_ok is_safe loc_unsafe track marked.
